@@ -261,6 +261,17 @@ def probe_layer() -> J:
     dobjs.append({"t": "SFIELD", "name": "sf_ooo", "struct": "st_ooo", "n": 2, "item_size": 5})
     rq("p_static_ooo", [sid(), p_value("f", "sf_ooo"), u8const("tail", 0x98)],
        "static-field-items-out-of-order")
+    # static field / end-of-PDU field whose items end with a terminated string (the item size
+    # depends on the PDU; every item but the last one of the PDU carries its terminator)
+    dobjs.append(_struct("st_var", [p_value("k", "u8"), p_value("s", "mmz")]))
+    dobjs.append({"t": "SFIELD", "name": "sf_var", "struct": "st_var", "n": 2, "item_size": 8})
+    rq("p_static_var", [sid(), p_value("f", "sf_var"), u8const("tail", 0x97)], "static-field-variable-items")
+    dobjs.append(_struct("st_unb", [p_value("k", "u8"), p_value("s", "mmu")]))  # no MAX-LENGTH
+    dobjs.append({"t": "SFIELD", "name": "sf_unb", "struct": "st_unb", "n": 2, "item_size": 6})
+    rq("p_static_unbounded", [sid(), p_value("f", "sf_unb"), u8const("tail", 0x96)],
+       "static-field-unbounded-items")
+    dobjs.append({"t": "EOPFIELD", "name": "eop_var", "struct": "st_var", "min": None, "max": None})
+    rq("p_eop_var", [sid(), p_value("f", "eop_var")], "end-of-pdu-field-variable-items")
     # 3 dynamic length field
     dobjs.append({"t": "DLFIELD", "name": "dlf", "struct": "st_item", "offset": 1, "cnt_dop": "u8",
                   "cnt_byte": 0, "cnt_bit": None})
